@@ -218,6 +218,7 @@ func (g *Gen) genTypeDecls() []*TopItem {
 		label := g.fresh("type")
 		g.curRefs = map[string]bool{}
 		var d *TypeDecl
+		var twinItem *TopItem
 		isRec := g.chance(1, 2, "isRecord")
 		if g.P.ManyDecls && i < 5 {
 			isRec = i%2 == 0 // records at 0, 2, 4; unions at 1, 3
@@ -245,8 +246,12 @@ func (g *Gen) genTypeDecls() []*TopItem {
 			if g.P.SharedFields && g.chance(1, 2, "twinRecord") {
 				// a second record with exactly the same field names and types
 				twin := &RecDecl{Name: g.fresh("Rec"), Fields: append([]Field{}, r.Fields...)}
+				if g.chance(1, 2, "twinSortsFirst") {
+					// a name that sorts before the original's (the choice among candidates is by name)
+					twin.Name = "Pre" + strings.TrimPrefix(twin.Name, "Rec")
+				}
 				tl := g.fresh("type")
-				items = append(items, &TopItem{Types: []*TypeDecl{{Rec: twin}}, Label: tl, Refs: keys(g.curRefs)})
+				twinItem = &TopItem{Types: []*TypeDecl{{Rec: twin}}, Label: tl, Refs: keys(g.curRefs)}
 				g.typeLabel[twin.Name] = tl
 				g.label("type: two records with the same field names")
 			}
@@ -271,6 +276,9 @@ func (g *Gen) genTypeDecls() []*TopItem {
 			g.typeLabel[u.Name] = label
 		}
 		items = append(items, &TopItem{Types: []*TypeDecl{d}, Label: label, Refs: keys(g.curRefs)})
+		if twinItem != nil {
+			items = append(items, twinItem) // after the original: its fields may mention the original
+		}
 	}
 	if g.P.Generics && g.chance(1, 2, "genericUnion") {
 		// type OptN<T> = | SomeN of T | NoneN
@@ -646,6 +654,18 @@ func (g *Gen) boolExpr(sc *scope, depth int) *Expr {
 			}
 		} else {
 			et = []*Type{TInt, TString, TBool}[g.intn(3, "eqBase")]
+		}
+		if g.chance(1, 3, "eqSameValue") {
+			// the same value on both sides (equal contents are the interesting case for structural equality)
+			g.label("equality of a value with itself")
+			if vs := sc.ofType(et); len(vs) > 0 {
+				v := vs[g.intn(len(vs), "eqVar")]
+				return Bin(op, TBool, g.useVar(v), g.useVar(v))
+			}
+			g.pure++
+			same := g.expr(sc, et, depth-1)
+			g.pure--
+			return Bin(op, TBool, same, same)
 		}
 		return Bin(op, TBool, g.expr(sc, et, depth-1), g.expr(sc, et, depth-1))
 	case 5:
